@@ -22,12 +22,9 @@ struct [[nodiscard]] TransferAwaiter final {
   template <typename Promise>
   YACLIB_INLINE auto await_suspend(yaclib_std::coroutine_handle<Promise> handle) noexcept {
     _caller.StoreCallback(handle.promise());
+    // The head can be any Job (Schedule, LazyContract, MakeTask, coroutine), start it like detail::Start
     auto* next = MoveToCaller(&_caller.core);
-#if YACLIB_SYMMETRIC_TRANSFER != 0
-    return next->Next(handle.promise());
-#else
-    return Loop(&handle.promise(), next);
-#endif
+    next->_executor->Submit(*next);
   }
 
   constexpr void await_resume() const noexcept {
@@ -51,12 +48,9 @@ struct [[nodiscard]] TransferSingleAwaiter final {
   template <typename Promise>
   YACLIB_INLINE auto await_suspend(yaclib_std::coroutine_handle<Promise> handle) noexcept {
     _result->StoreCallback(handle.promise());
+    // The head can be any Job (Schedule, LazyContract, MakeTask, coroutine), start it like detail::Start
     auto* next = MoveToCaller(_result.Get());
-#if YACLIB_SYMMETRIC_TRANSFER != 0
-    return next->Next(handle.promise());
-#else
-    return Loop(&handle.promise(), next);
-#endif
+    next->_executor->Submit(*next);
   }
 
   auto await_resume() {
